@@ -4,6 +4,7 @@ import ScVerif.C11.Slice
 import ScVerif.C11.ExecCheck
 import ScVerif.C11.ExecNeed
 import ScVerif.C11.ExecSync
+import ScVerif.C11.Many
 /-! Driver handler for C11: evaluates the executable lockset definitions on rows sent by the harness.
 
 Row encoding (no spaces): `field,kind,phase,role,held,rel,acq` with `kind ∈ {R,W}`, `phase ∈ {init,live}`,
@@ -21,6 +22,11 @@ Row encoding (no spaces): `field,kind,phase,role,held,rel,acq` with `kind ∈ {R
   channels 0..2 in the state reached; events `A/t/l/R|X` (acquire), `U/t/l/R|X` (release), `C/t/c` (close),
   `O/t/c` (observe closed), `P/t` (publish), `G/t` (obtain the reference), `D/t` (leave: done with the
   object), `J/t` (join)
+* `many <o>@<ev> <o>@<ev> …` → `ok=<accepted> pv=<0|1> | <state of object 0> | <object 1> | <object 2>`: the many-object
+  semantics of `Many.lean` (every object created by goroutine 1) run as far as it allows (`mrunCount`); per object the
+  summary of `exec` with `ok` = the number of that object's events among the accepted ones (`proj`); `pv` = every
+  one-object projection of the WHOLE list is an execution of `Exec.lean` (by `C11_objects_independent` that is
+  `accepted = length`); domain: objects 0..2
 * `racy <rowA> <rowB>`      → `valid=<0|1> conf=<0|1> sync=<0|1> ordered=<0|1> consistent=<0|1>`: the witness execution
   `racyExec a b` of `ExecNeed.lean` — is it an execution (`xrunCount`), does it do what the rows say
   (`conformsB`, roles as in the theorem), is there a synchronisation between the two accesses (`syncBetween`),
@@ -71,6 +77,11 @@ def parseEv? (s : String) : Option XEv :=
   | ["D", t] => do pure (XEv.leave (← parseNat? t))
   | ["J", t] => do pure (XEv.join (← parseNat? t))
   | ["X", t] => do pure (XEv.acc (← parseNat? t) ⟨0, .R, 0, [], .live, 0, [], []⟩)
+  | _ => none
+
+def parseMEv? (s : String) : Option MEv :=
+  match s.splitOn "@" with
+  | [o, e] => do pure ((← parseNat? o), (← parseEv? e))
   | _ => none
 
 def showExec (n : Nat) (s : XState) : String :=
@@ -124,6 +135,15 @@ def handle (toks : List String) : String :=
     match parseNat? t, parseNat? i, parseNat? j, evs.mapM parseEv? with
     | some t, some i, some j, some es => s!"norelease={bit (noReleaseBy es t i j)} noacquire={bit (noAcquireBy es t i j)}"
     | _, _, _, _ => "!bad-op"
+  | "many" :: evs =>
+    match evs.mapM parseMEv? with
+    | some es =>
+      let r := mrunCount (fun _ => 1) minit es
+      let done := es.take r.1
+      let per (o : Nat) : String := showExec (proj o done).length (r.2 o)
+      let pv := (List.range 3).all fun o => (xrunCount 1 XState.init (proj o es)).1 == (proj o es).length
+      s!"ok={r.1} pv={bit pv} | {per 0} | {per 1} | {per 2}"
+    | none => "!bad-op"
   | "exec" :: cr :: evs =>
     match parseNat? cr, evs.mapM parseEv? with
     | some cr, some es =>
